@@ -336,7 +336,12 @@ func (w *proxyWorld) originHandler(rw http.ResponseWriter, req *http.Request) {
 	w.mu.Unlock()
 	if ri >= 0 {
 		for _, kv := range w.p.Res[ri].Extra {
-			if kv[0] == "X-Sim-Raw" {
+			if kv[0] == "X-Sim-Raw-NoRange" && req.Header.Get("Range") != "" {
+				// this origin refuses ranges properly (below) and is hostile only to requests without one
+				// (the proxy's retry after the 416)
+				continue
+			}
+			if kv[0] == "X-Sim-Raw" || kv[0] == "X-Sim-Raw-NoRange" {
 				// hostile origin: literal bytes instead of a well-formed response
 				n, _ := strconv.Atoi(kv[1])
 				e.Res, e.Status = ri, -1
